@@ -4,7 +4,9 @@ import AcVerif.Proofs.StreamIdeal
 
 On the ideal standard automaton, for every stream `data`, every read schedule
 (each `read` call returning at least one byte while data remain) and every
-buffer capacity `min + spare` (`spare ≥ 1`, or the production default),
+buffer capacity `min + spare` (`spare ≥ 1`) or `max (min * minFactor) defaultCap`
+– any constants leaving one byte of room beyond `min` (`hcap`; the `_default`,
+`_factor`, `_spare` corollaries discharge it) –
 `StreamFindIter` yields exactly the matches of the in-memory `FindIter` on the
 whole stream, reports no I/O error, and never calls `read` with an empty
 buffer.  Since each `findAt` answer is *the* `IsFind .std` answer (`C02_find`),
@@ -19,38 +21,112 @@ variable {α : Type} [DecidableEq α]
 
 theorem C07_stream_eq_iter (P : List (List α)) (_hP : P ≠ []) (hne : ∀ p ∈ P, p ≠ [])
     (sk : StartKind) (hsk : supportsAnch sk false) (data : List α) (sched : List Nat)
-    (hs : ∀ x ∈ sched, 1 ≤ x) (spare : Option Nat) :
+    (hs : ∀ x ∈ sched, 1 ≤ x) (spare : Option Nat) (minFactor defaultCap : Nat)
+    (hcap : (Buffer.new (α := α) (ideal .std P sk false).maxLen spare minFactor defaultCap).min <
+        (Buffer.new (α := α) (ideal .std P sk false).maxLen spare minFactor defaultCap).cap) :
     ∃ ms,
       findIter (ideal .std P sk false) none
         { hay := data, s := 0, e := data.length, anch := false, earliest := false,
           valid := ⟨Nat.le_refl _, Nat.zero_le _⟩ } = .ok ms ∧
-      streamFind (ideal .std P sk false) { data := data, sched := sched } spare =
-        .ok (ms, false, 0) := by
+      streamFind (ideal .std P sk false) { data := data, sched := sched } spare
+        minFactor defaultCap = .ok (ms, false, 0) := by
   obtain ⟨it, cs, err, hnew, hd, hsp, he, _⟩ :=
-    stream_master P sk hsk hne data sched hs spare none
+    stream_master P sk hsk hne data sched hs spare minFactor defaultCap hcap none
   have herr := he rfl
   subst herr
-  have H := hyp_ideal P sk hsk hne data sched hs spare
+  have H := hyp_ideal P sk hsk hne data sched hs spare minFactor defaultCap hcap
   have hm := (spec_mats H.FOK hsp (Nat.zero_le _)).2 rfl
   refine ⟨_, findIter_eq P sk hsk data, ?_⟩
-  rw [iter_findAt P sk hsk hne data sched hs spare, ← hm]
+  rw [iter_findAt P sk hsk hne data, ← hm]
   simp only [streamFind, hnew, hd]
   rfl
 
 /-- the stream yields the specification's iterator over *the* standard answers -/
 theorem C07_stream_spec (P : List (List α)) (_hP : P ≠ []) (hne : ∀ p ∈ P, p ≠ [])
     (sk : StartKind) (hsk : supportsAnch sk false) (data : List α) (sched : List Nat)
-    (hs : ∀ x ∈ sched, 1 ≤ x) (spare : Option Nat) :
+    (hs : ∀ x ∈ sched, 1 ≤ x) (spare : Option Nat) (minFactor defaultCap : Nat)
+    (hcap : (Buffer.new (α := α) (ideal .std P sk false).maxLen spare minFactor defaultCap).min <
+        (Buffer.new (α := α) (ideal .std P sk false).maxLen spare minFactor defaultCap).cap) :
     ∃ F : Nat → Option Mat,
       (∀ st, st ≤ data.length + 1 → IsFind .std P data st data.length false (F st)) ∧
-      streamFind (ideal .std P sk false) { data := data, sched := sched } spare =
-        .ok (iterSpec F 0 data.length, false, 0) := by
-  obtain ⟨ms, h1, h2⟩ := C07_stream_eq_iter P _hP hne sk hsk data sched hs spare
+      streamFind (ideal .std P sk false) { data := data, sched := sched } spare
+        minFactor defaultCap = .ok (iterSpec F 0 data.length, false, 0) := by
+  obtain ⟨ms, h1, h2⟩ :=
+    C07_stream_eq_iter P _hP hne sk hsk data sched hs spare minFactor defaultCap hcap
   refine ⟨findAt (ideal .std P sk false) none (whole data),
     fun st hst => findAt_isFind P sk hsk data st hst, ?_⟩
   rw [findIter_eq P sk hsk data] at h1
   cases h1
   exact h2
+
+/-! ## corollaries: the default constants, any factor `≥ 2`, explicit spare room -/
+
+/-- the default constants (factor 8, 64 KiB) -/
+theorem C07_stream_eq_iter_default (P : List (List α)) (_hP : P ≠ []) (hne : ∀ p ∈ P, p ≠ [])
+    (sk : StartKind) (hsk : supportsAnch sk false) (data : List α) (sched : List Nat)
+    (hs : ∀ x ∈ sched, 1 ≤ x) (spare : Option Nat) :
+    ∃ ms,
+      findIter (ideal .std P sk false) none
+        { hay := data, s := 0, e := data.length, anch := false, earliest := false,
+          valid := ⟨Nat.le_refl _, Nat.zero_le _⟩ } = .ok ms ∧
+      streamFind (ideal .std P sk false) { data := data, sched := sched } spare =
+        .ok (ms, false, 0) :=
+  C07_stream_eq_iter P _hP hne sk hsk data sched hs spare 8 (64 * 1024) (hcap_default _ spare)
+
+/-- production-shaped capacity `max (min * minFactor) defaultCap`, any `minFactor ≥ 2` -/
+theorem C07_stream_eq_iter_factor (P : List (List α)) (_hP : P ≠ []) (hne : ∀ p ∈ P, p ≠ [])
+    (sk : StartKind) (hsk : supportsAnch sk false) (data : List α) (sched : List Nat)
+    (hs : ∀ x ∈ sched, 1 ≤ x) (minFactor defaultCap : Nat) (hf : 2 ≤ minFactor) :
+    ∃ ms,
+      findIter (ideal .std P sk false) none
+        { hay := data, s := 0, e := data.length, anch := false, earliest := false,
+          valid := ⟨Nat.le_refl _, Nat.zero_le _⟩ } = .ok ms ∧
+      streamFind (ideal .std P sk false) { data := data, sched := sched } none
+        minFactor defaultCap = .ok (ms, false, 0) :=
+  C07_stream_eq_iter P _hP hne sk hsk data sched hs none minFactor defaultCap
+    (hcap_factor _ minFactor defaultCap hf)
+
+/-- explicit spare room `min + max 1 sp`, whatever the constants -/
+theorem C07_stream_eq_iter_spare (P : List (List α)) (_hP : P ≠ []) (hne : ∀ p ∈ P, p ≠ [])
+    (sk : StartKind) (hsk : supportsAnch sk false) (data : List α) (sched : List Nat)
+    (hs : ∀ x ∈ sched, 1 ≤ x) (sp minFactor defaultCap : Nat) :
+    ∃ ms,
+      findIter (ideal .std P sk false) none
+        { hay := data, s := 0, e := data.length, anch := false, earliest := false,
+          valid := ⟨Nat.le_refl _, Nat.zero_le _⟩ } = .ok ms ∧
+      streamFind (ideal .std P sk false) { data := data, sched := sched } (some sp)
+        minFactor defaultCap = .ok (ms, false, 0) :=
+  C07_stream_eq_iter P _hP hne sk hsk data sched hs (some sp) minFactor defaultCap
+    (hcap_spare _ sp minFactor defaultCap)
+
+theorem C07_stream_spec_default (P : List (List α)) (_hP : P ≠ []) (hne : ∀ p ∈ P, p ≠ [])
+    (sk : StartKind) (hsk : supportsAnch sk false) (data : List α) (sched : List Nat)
+    (hs : ∀ x ∈ sched, 1 ≤ x) (spare : Option Nat) :
+    ∃ F : Nat → Option Mat,
+      (∀ st, st ≤ data.length + 1 → IsFind .std P data st data.length false (F st)) ∧
+      streamFind (ideal .std P sk false) { data := data, sched := sched } spare =
+        .ok (iterSpec F 0 data.length, false, 0) :=
+  C07_stream_spec P _hP hne sk hsk data sched hs spare 8 (64 * 1024) (hcap_default _ spare)
+
+theorem C07_stream_spec_factor (P : List (List α)) (_hP : P ≠ []) (hne : ∀ p ∈ P, p ≠ [])
+    (sk : StartKind) (hsk : supportsAnch sk false) (data : List α) (sched : List Nat)
+    (hs : ∀ x ∈ sched, 1 ≤ x) (minFactor defaultCap : Nat) (hf : 2 ≤ minFactor) :
+    ∃ F : Nat → Option Mat,
+      (∀ st, st ≤ data.length + 1 → IsFind .std P data st data.length false (F st)) ∧
+      streamFind (ideal .std P sk false) { data := data, sched := sched } none
+        minFactor defaultCap = .ok (iterSpec F 0 data.length, false, 0) :=
+  C07_stream_spec P _hP hne sk hsk data sched hs none minFactor defaultCap
+    (hcap_factor _ minFactor defaultCap hf)
+
+theorem C07_stream_spec_spare (P : List (List α)) (_hP : P ≠ []) (hne : ∀ p ∈ P, p ≠ [])
+    (sk : StartKind) (hsk : supportsAnch sk false) (data : List α) (sched : List Nat)
+    (hs : ∀ x ∈ sched, 1 ≤ x) (sp minFactor defaultCap : Nat) :
+    ∃ F : Nat → Option Mat,
+      (∀ st, st ≤ data.length + 1 → IsFind .std P data st data.length false (F st)) ∧
+      streamFind (ideal .std P sk false) { data := data, sched := sched } (some sp)
+        minFactor defaultCap = .ok (iterSpec F 0 data.length, false, 0) :=
+  C07_stream_spec P _hP hne sk hsk data sched hs (some sp) minFactor defaultCap
+    (hcap_spare _ sp minFactor defaultCap)
 
 /-! ## non-vacuity: a match split across reads, capacity `min + 1` -/
 
@@ -61,8 +137,26 @@ example : ∃ ms,
         valid := ⟨Nat.le_refl _, Nat.zero_le _⟩ } = .ok ms ∧
     streamFind (ideal .std [[1, 2, 3], [3, 4]] .both false)
       { data := [0, 1, 2, 3, 4, 1, 2, 3], sched := [2, 1, 3, 1] } (some 1) = .ok (ms, false, 0) :=
-  C07_stream_eq_iter [[1, 2, 3], [3, 4]] (by decide) (by decide) .both (Or.inl rfl)
+  C07_stream_eq_iter_default [[1, 2, 3], [3, 4]] (by decide) (by decide) .both (Or.inl rfl)
     [0, 1, 2, 3, 4, 1, 2, 3] [2, 1, 3, 1] (by decide) (some 1)
+
+/-- the general theorem's `hcap` is satisfiable with non-default constants
+(factor 2, default capacity 0: a 6-byte buffer for `min = 3`) -/
+example : ∃ ms,
+    findIter (ideal .std [[1, 2, 3], [3, 4]] .both false) none
+      { hay := [0, 1, 2, 3, 4, 1, 2, 3], s := 0, e := 8, anch := false, earliest := false,
+        valid := ⟨Nat.le_refl _, Nat.zero_le _⟩ } = .ok ms ∧
+    streamFind (ideal .std [[1, 2, 3], [3, 4]] .both false)
+      { data := [0, 1, 2, 3, 4, 1, 2, 3], sched := [2, 1, 3, 1] } none 2 0 = .ok (ms, false, 0) :=
+  C07_stream_eq_iter [[1, 2, 3], [3, 4]] (by decide) (by decide) .both (Or.inl rfl)
+    [0, 1, 2, 3, 4, 1, 2, 3] [2, 1, 3, 1] (by decide) none 2 0 (by decide)
+
+/-- `hcap` is needed: with factor 1 and default capacity 0 the buffer has no
+room beyond `min` and the hypothesis is false -/
+example :
+    ¬ ((Buffer.new (α := Nat) (ideal .std [[1, 2, 3], [3, 4]] .both false).maxLen none 1 0).min <
+      (Buffer.new (α := Nat) (ideal .std [[1, 2, 3], [3, 4]] .both false).maxLen none 1 0).cap) := by
+  decide
 
 /-- reads of 2, 1, 3, 1, … bytes into a 4-byte buffer: `[1,2,3]` arrives in two reads -/
 example : streamFind (ideal .std [[1, 2, 3], [3, 4]] .both false)
